@@ -7,6 +7,7 @@ package main
 // while the preemption budget lasts, before any visible operation.
 
 import (
+	"strings"
 	"fmt"
 	"go/types"
 	"math/big"
@@ -105,6 +106,9 @@ func (m *Machine) threadBody(t *Thread, body func()) {
 			}
 			if pa.kind == "deadlock" || pa.kind == "fatal" {
 				m.noteLiveness(pa)
+			}
+			if pa.kind == "exit" {
+				m.runExitChecks(pa.msg)
 			}
 			if pa.kind == "unwind" && m.ghost["spin"] != nil {
 				// the harness declared that exceeding the loop bound means "spins forever"
@@ -383,6 +387,10 @@ func (m *Machine) canRecv(ch *ChanV) bool {
 		return false
 	}
 	if ch.isTimer() {
+		// bounded number of timer events per path (stated bound; keeps ticker loops finite)
+		if m.timerFires >= m.eng.cfg.MaxTimerFires {
+			return len(ch.buf) > 0
+		}
 		return ch.timer.active && !ch.timer.fired || len(ch.buf) > 0
 	}
 	if len(ch.buf) > 0 || ch.closed {
@@ -423,6 +431,7 @@ func (m *Machine) doRecv(ch *ChanV, elem types.Type) (Value, bool) {
 	if ch.isTimer() && len(ch.buf) == 0 {
 		ts := ch.timer
 		// the timer fires: time passes to (at least) its deadline
+		m.timerFires++
 		m.advanceClockTo(ts.deadline)
 		if ts.period != nil {
 			ts.deadline = tAdd(ts.deadline, ts.period)
@@ -593,6 +602,12 @@ func (m *Machine) selectInstr(fr *frame, instr *ssa.Select) Value {
 // ---------- clock ----------
 
 func (m *Machine) now() *Term {
+	if m.ghost["frozenclock"] != nil {
+		if m.clock == nil {
+			m.clock = mkInt64(1_500_000_000_123_456_789)
+		}
+		return m.clock
+	}
 	if m.clock == nil {
 		m.clock = m.freshVar("clock0", SInt, big.NewInt(1_000_000_000_000_000_000), big.NewInt(4_000_000_000_000_000_000))
 		return m.clock
@@ -603,6 +618,9 @@ func (m *Machine) now() *Term {
 }
 
 func (m *Machine) advanceClockTo(t *Term) {
+	if m.ghost["frozenclock"] != nil {
+		return
+	}
 	if m.clock == nil {
 		m.now()
 	}
@@ -831,4 +849,32 @@ func (c *CtxV) effectiveErr() Value {
 		}
 	}
 	return Iface{}
+}
+
+// exit checks registered by vOnExit: evaluated when the (modelled) process exits.
+type exitCheck struct {
+	id      string
+	flag    *Value
+	allowed []string
+}
+
+func (m *Machine) runExitChecks(msg string) {
+	if m.killed {
+		return
+	}
+	defer func() { recover() }()
+	for _, ec := range m.exitChecks {
+		ok := false
+		for _, a := range ec.allowed {
+			if a != "" && strings.Contains(msg, a) {
+				ok = true
+			}
+		}
+		if ok {
+			continue
+		}
+		if t, isT := (*ec.flag).(*Term); isT {
+			m.check(ec.id, t)
+		}
+	}
 }
